@@ -13,14 +13,19 @@ func init() {
 	vRegister("vC13_history4", vC13_history4)
 	vRegister("vC13_history5", vC13_history5)
 	vRegister("vC13_history6", vC13_history6)
+	vRegister("vC13_suffix1", vC13_suffix1)
+	vRegister("vC13_suffix2", vC13_suffix2)
 	vRegister("vC13_suffix3", vC13_suffix3)
-	vRegister("vC13_suffix4", vC13_suffix4)
 	vRegister("vC13_nobuffer", vC13_nobuffer)
+	vRegister("vC13_dbg", vC13_dbg)
 }
 
 type vC13Msg struct{ tag int }
 
-const vC13Max = 10
+const (
+	vC13Max      = 12 // messages per history
+	vC13MaxStash = 5  // longest stash any registered history can build
+)
 
 // what the sender put into each message (indexed by tag)
 var (
@@ -30,21 +35,15 @@ var (
 	vC13_reqID  [vC13Max]string
 )
 
-// FIFO reference queue of tags
+// FIFO reference queue of tags (no loops: the executor pays one solver query per loop iteration)
 type vC13Queue struct {
-	a [vC13Max]int
-	n int
+	a    [vC13Max]int
+	h, t int
 }
 
-func (q *vC13Queue) push(t int) { q.a[q.n] = t; q.n++ }
-func (q *vC13Queue) pop() int {
-	t := q.a[0]
-	for i := 0; i+1 < vC13Max; i++ {
-		q.a[i] = q.a[i+1]
-	}
-	q.n--
-	return t
-}
+func (q *vC13Queue) len() int   { return q.t - q.h }
+func (q *vC13Queue) push(x int) { q.a[q.t] = x; q.t++ }
+func (q *vC13Queue) pop() int   { x := q.a[q.h]; q.h++; return x }
 
 func vC13_newPID() *PID {
 	pid := &PID{mailbox: NewUnboundedMailbox(), systemMailbox: NewUnboundedMailbox()}
@@ -65,8 +64,9 @@ func vC13_history3() { vC13_history(3) }
 func vC13_history4() { vC13_history(4) }
 func vC13_history5() { vC13_history(5) }
 func vC13_history6() { vC13_history(6) }
+func vC13_suffix1()  { vC13_history(1) }
+func vC13_suffix2()  { vC13_history(2) }
 func vC13_suffix3()  { vC13_history(3) }
-func vC13_suffix4()  { vC13_history(4) }
 
 // concrete prefixes that build differently shaped states (case-split by the driver; "" = fresh actor):
 // A arrive, S take+stash, H take+handle, U Unstash, L UnstashAll
@@ -108,7 +108,18 @@ func vC13_history(K int) {
 	var mainQ, stashQ vC13Queue
 	next := 0
 	prefix := vC13_prefixes[vCase("prefix")]
+	// bounds for the final drain loops, computed (concretely) from the state the prefix built
+	bm, bs := 0, 0
 	for k := 0; k < len(prefix)+K; k++ {
+		if k == len(prefix) {
+			m, st := mainQ.len(), stashQ.len()
+			x := min(K, m) // messages that can be stashed right away; later ones need an arrival first
+			bs = st + x + (K-x)/2
+			bm = m + K
+			if st > 0 {
+				bm = max(bm, m+st+K-1)
+			}
+		}
 		var op int
 		if k < len(prefix) {
 			op = vC13_opOf(prefix[k])
@@ -120,20 +131,24 @@ func vC13_history(K int) {
 			tag := next
 			next++
 			vC13_msg[tag] = &vC13Msg{tag: tag}
-			switch vChoose("sender", 3) {
-			case 0:
-				vC13_sender[tag] = nil
-			case 1:
-				vC13_sender[tag] = senders[0]
-			default:
-				vC13_sender[tag] = senders[1]
+			// no control flow here: a 3-way switch would leave the executor with a non-trivial (tautological) path guard
+			// (an indexed read senders[i] with symbolic i would add a bounds-check path condition as well)
+			var snd *PID
+			who := vChoose("sender", 3)
+			if who == 1 {
+				snd = senders[0]
 			}
-			vC13_resp[tag] = nil
-			vC13_reqID[tag] = ""
-			if vNondetBool("isAsk") {
-				vC13_resp[tag] = make(chan any, 1)
-				vC13_reqID[tag] = "req"
+			if who == 2 {
+				snd = senders[1]
 			}
+			vC13_sender[tag] = snd
+			isAsk := vNondetBool("isAsk")
+			ch := make(chan any, 1)
+			id := "req"
+			if !isAsk {
+				ch, id = nil, ""
+			}
+			vC13_resp[tag], vC13_reqID[tag] = ch, id
 			ctx := getContext()
 			ctx.message, ctx.sender, ctx.self = vC13_msg[tag], vC13_sender[tag], pid
 			ctx.response, ctx.requestID = vC13_resp[tag], vC13_reqID[tag]
@@ -142,8 +157,8 @@ func vC13_history(K int) {
 			vCover("arrive")
 		case 1, 2:
 			cur := pid.mailbox.Dequeue()
-			vAssert((cur != nil) == (mainQ.n > 0), "the main mailbox holds a message exactly when the model does")
-			if cur == nil || mainQ.n == 0 {
+			vAssert((cur != nil) == (mainQ.len() > 0), "the main mailbox holds a message exactly when the model does")
+			if cur == nil || mainQ.len() == 0 {
 				break
 			}
 			tag := mainQ.pop()
@@ -159,7 +174,7 @@ func vC13_history(K int) {
 		case 3:
 			h := &ReceiveContext{self: pid}
 			h.Unstash()
-			if stashQ.n > 0 {
+			if stashQ.len() > 0 {
 				vAssert(h.err == nil, "Unstash of a non-empty stash reports no error")
 				mainQ.push(stashQ.pop())
 				vCover("unstash")
@@ -171,30 +186,35 @@ func vC13_history(K int) {
 			h := &ReceiveContext{self: pid}
 			h.UnstashAll()
 			vAssert(h.err == nil, "UnstashAll reports no error")
-			if stashQ.n >= 2 {
+			if stashQ.len() >= 2 {
 				vCover("unstashAll-many")
 			}
-			for stashQ.n > 0 {
-				mainQ.push(stashQ.pop())
+			for i := 0; i < vC13MaxStash; i++ {
+				if stashQ.len() > 0 {
+					mainQ.push(stashQ.pop())
+				}
 			}
 		}
 	}
-	vAssert(pid.stashState.box.Len() == int64(stashQ.n), "the stash holds exactly the stashed, not yet unstashed messages")
 	// final accounting: drain both real queues and compare with the model (nothing lost, duplicated or reordered)
-	vAssert(pid.mailbox.Len() == int64(mainQ.n), "main mailbox length equals the model")
-	if mainQ.n >= 2 && stashQ.n >= 1 {
+	vAssert(mainQ.len() <= bm && stashQ.len() <= bs && bs <= vC13MaxStash, "harness bound on queue lengths is large enough")
+	if mainQ.len() >= 2 && stashQ.len() >= 1 {
 		vCover("both-nonempty-at-end")
 	}
-	for mainQ.n > 0 {
-		cur := pid.mailbox.Dequeue()
-		tag := mainQ.pop()
-		vAssert(cur != nil && vC13_same(cur, pid, tag), "remaining main-mailbox messages come out in model order, unchanged")
+	for i := 0; i < bm; i++ {
+		if mainQ.len() > 0 {
+			cur := pid.mailbox.Dequeue()
+			tag := mainQ.pop()
+			vAssert(cur != nil && vC13_same(cur, pid, tag), "remaining main-mailbox messages come out in model order, unchanged")
+		}
 	}
 	vAssert(pid.mailbox.Dequeue() == nil, "no extra message in the main mailbox")
-	for stashQ.n > 0 {
-		cur := pid.stashState.box.Dequeue()
-		tag := stashQ.pop()
-		vAssert(cur != nil && vC13_same(cur, pid, tag), "remaining stashed messages are in stash order, unchanged")
+	for i := 0; i < bs; i++ {
+		if stashQ.len() > 0 {
+			cur := pid.stashState.box.Dequeue()
+			tag := stashQ.pop()
+			vAssert(cur != nil && vC13_same(cur, pid, tag), "remaining stashed messages are in stash order, unchanged")
+		}
 	}
 	vAssert(pid.stashState.box.Dequeue() == nil, "no extra message in the stash")
 	vCover("end")
@@ -220,4 +240,24 @@ func vC13_nobuffer() {
 	vAssert(cur.err != nil && errors.Is(cur.err, gerrors.ErrStashBufferNotSet), "without a stash buffer the operation reports ErrStashBufferNotSet")
 	vAssert(pid.mailbox.IsEmpty() && pid.systemMailbox.IsEmpty(), "nothing is delivered")
 	vCover("end")
+}
+
+func vC13_dbg() {
+	pid := vC13_newPID()
+	ctx := getContext()
+	vAssert(ctx != nil, "dbg-ctx")
+	ctx.self = pid
+	ctx.message = &vC13Msg{tag: 1}
+	pid.doReceive(ctx)
+	vAssert(!pid.mailbox.IsEmpty(), "dbg-nonempty")
+	cur := pid.mailbox.Dequeue()
+	vAssert(cur != nil, "dbg-cur")
+	vAssert(cur == ctx, "dbg-cur2")
+	c2 := getContext()
+	vAssert(c2 != nil, "dbg-c2")
+	c3 := getContext()
+	vAssert(c3 != nil, "dbg-c3")
+	c4 := getContext()
+	vAssert(c4 != nil, "dbg-c4")
+	vAssert(c4 != c3, "dbg-c43")
 }
